@@ -96,8 +96,8 @@ PROPS["C08"] = dict(
 )
 
 PROPS["C09"] = dict(
-    units=[("kani", "ops"), ("verus", "vmcore")],
-    explanation="For every scalar kind pair and every payload: + - * / % << >> & | ^ and unary - equal the two's-complement / modulo-2^8 / "
+    units=[("kani", "ops"), ("verus", "vmcore"), ("verus", "cgen")],
+    explanation="Compiler (cgen unit, real bodies): a binary operator other than && / || is compiled as <first operand> <second operand> <opcode> with the opcode of the documented table (infix_opcode) and the operands in source order - except < and <=, which are > and >= on the swapped operands (binary_shape); a unary operator as <operand> <opcode> (unary_opcode). For every scalar kind pair and every payload: + - * / % << >> & | ^ and unary - equal the two's-complement / modulo-2^8 / "
                 "IEEE model; comparisons are exact on integers and IEEE otherwise, consistent with ==. binary_op/bitwise_op return Ok only for "
                 "(operator, kind, kind) combinations of the C09 table and call the operator only on its panic-free domain.",
     not_covered=["float % value (CBMC has no fmod: result kind only)", "string/char lexicographic compare beyond chars (std String::partial_cmp assumed)",
